@@ -21,6 +21,8 @@ def isFn : TyName → Bool | .fn .. => true | _ => false
 def nonCustomErr : Option TyName → Bool
   | some (.res _ err _) => match err with
     | .prim _ | .strRef .. | .primSlice .. => true
+    | .opt (.box _) _ | .opt (.ref ..) _ => false     -- nullable opaque pointer: has a TypeId
+    | .opt _ _ => true                                -- DiplomatOption<T>: `Type::id()` is None
     | _ => false
   | _ => false
 
